@@ -307,7 +307,7 @@ def r3_format(toks, counts, names=('format',)):
     return out
 
 
-def r32_format_prefixed(toks, counts):
+def r32_format_prefixed(toks, counts, infix=False):
     """opt-in: `format!("LIT{name}")` / `format!("LIT{}", E)` -- a literal prefix followed by ONE placeholder at the very end --
     -> `fmt_prefixed("LIT", &name)` / `fmt_prefixed("LIT", &(E))`: the text is the prefix followed by the Display text of the value
     (what `format!` means for this shape).  Runs before R3, which makes every other `format!` opaque."""
@@ -326,6 +326,11 @@ def r32_format_prefixed(toks, counts):
                     if inner and inner[0][0] == 'str' and inner[0][1].startswith('"'):
                         lit = inner[0][1][1:-1]
                         m = re.match(r'^([^{}\\]*)\{([A-Za-z_][A-Za-z0-9_]*)?\}$', lit)
+                        suffix = ''
+                        if not m and infix:
+                            # region option R32i: one placeholder followed by a literal -> fmt_infixed("PRE", &E, "SUF")
+                            m = re.match(r'^([^{}\\]*)\{([A-Za-z_][A-Za-z0-9_]*)?\}([^{}\\]+)$', lit)
+                            suffix = m.group(3) if m else ''
                         if m:
                             prefix, name = m.group(1), m.group(2)
                             arg = None
@@ -334,6 +339,11 @@ def r32_format_prefixed(toks, counts):
                             elif not name and len(inner) >= 3 and is_p(inner[1], ','):
                                 a0 = next(k for k in range(op + 1, cl) if is_p(toks[k], ','))
                                 arg = '(' + _flat(toks[a0 + 1:cl]).rstrip(',').strip() + ')'
+                            if arg is not None and suffix:
+                                out += rtok.tokenize('fmt_infixed("%s", &%s, "%s")' % (prefix, arg, suffix))
+                                counts['R32'] = counts.get('R32', 0) + 1
+                                i = cl + 1
+                                continue
                             if arg is not None:
                                 out += rtok.tokenize('fmt_prefixed("%s", &%s)' % (prefix, arg))
                                 counts['R32'] = counts.get('R32', 0) + 1
@@ -2044,12 +2054,12 @@ def _flat(toks):
     return ''.join(out).strip()
 
 
-def _parse_closure(arg):
+def _parse_closure(arg, allow_path=False):
     """arg: tokens between the parentheses of an adapter call; returns (pattern_text, body_tokens) or None"""
     k = next_sig(arg, 0)
     if k < len(arg) and is_id(arg[k], 'move'):
         k = next_sig(arg, k + 1)
-    if k < len(arg) and arg[k][0] == 'id' and all(t[0] in TRIVIA or t[0] == 'id' or is_p(t, ':') for t in arg):
+    if allow_path and k < len(arg) and arg[k][0] == 'id' and all(t[0] in TRIVIA or t[0] == 'id' or is_p(t, ':') for t in arg):
         # a function path in place of a closure (`.map_while(SyncOp::from_op)`) is `|v| PATH(v)`
         path = _flat(arg).strip()
         return 'r26_v', rtok.tokenize('%s(r26_v)' % path)
@@ -2128,7 +2138,7 @@ def _r26_parse_stages(toks, j):
     parsed = []
     for (name, arg, tf) in stages:
         if name in ('filter', 'map', 'filter_map', 'map_while', 'for_each', 'all', 'any'):
-            c = _parse_closure(arg)
+            c = _parse_closure(arg, allow_path=(name == 'map_while'))
             if c is None:
                 return None, j
             parsed.append((name, c[0], c[1], tf))
@@ -2963,8 +2973,8 @@ def extract_region(src_text, path, opts=None):
         elif r == 'R12':
             item = r12_context(item, counts)
         elif r == 'R3':
-            if 'R32' in opts.get('rules', ()):
-                item = r32_format_prefixed(item, counts)
+            if 'R32' in opts.get('rules', ()) or 'R32i' in opts.get('rules', ()):
+                item = r32_format_prefixed(item, counts, infix='R32i' in opts.get('rules', ()))
             item = r3_format(item, counts, names=('format',) + tuple(opts.get('opaque_macros', ())))
         elif r == 'R4':
             item = r4_ref_patterns(item, counts)
